@@ -20,6 +20,8 @@ pub fn prop() -> Prop {
             Sub::tape("primitives", 40, 240_000, 12_000_000, |d, cx| run(d, cx, 0)).with_fp(),
             Sub::tape("primitives_large", 40, 2_000, 100_000, |d, cx| run(d, cx, 4)),
             Sub::tape("polylines", 40, 50_000, 2_500_000, |d, cx| run(d, cx, 1)),
+            Sub::tape("primitives_display_scale", 40, 3_000, 150_000, display_scale).with_fp(),
+            Sub::tape("thick_polylines_triangles", 24, 300_000, 15_000_000, thick_joins),
             Sub::tape("images", 120, 30_000, 1_500_000, |d, cx| run(d, cx, 2)),
             Sub::tape("text_random", 60, 100_000, 5_000_000, |d, cx| run(d, cx, 3)),
             Sub::enumerate("fonts_matrix", fonts_matrix),
@@ -127,4 +129,72 @@ fn fonts_matrix(ex: &Ex) {
         }
         ex.add(count, nt);
     });
+}
+
+
+/// Thick polylines (3..=4 vertices) and triangles with small stroke widths: the join geometry
+/// (miter / bevel / degenerate / skeleton segments) decides the styled bounding box. Found F-23
+/// (a 2 px polyline whose drawn end point lies outside its box) in the thorough tier; this
+/// sub-check concentrates the quick tier on that region.
+fn thick_joins(d: &mut Dec, cx: &mut Cx) -> Res {
+    type C = BinaryColor;
+    let width = match d.u(0, 3) {
+        0 | 1 => 2,
+        2 => 3,
+        _ => d.u(2, 8),
+    };
+    let mut style = embedded_graphics::primitives::PrimitiveStyle::<C>::with_stroke(BinaryColor::On, width);
+    style.stroke_alignment = crate::gen::alignment(d);
+    let r = if d.ratio(1, 3) { 12 } else { 40 };
+    let p = |d: &mut Dec| Point::new(d.i(-r, r), d.i(-r, r));
+    let item: Item<C> = if d.ratio(1, 4) {
+        cx.class("triangle");
+        Item::Styled(crate::gen::Shape::Triangle(embedded_graphics::primitives::Triangle::new(p(d), p(d), p(d))), style)
+    } else {
+        cx.class("polyline");
+        let n = d.u(3, 4);
+        let pts: Vec<Point> = (0..n).map(|_| p(d)).collect();
+        Item::Polyline(PolyItem { pts, offset: Point::zero(), style })
+    };
+    cx.describe(|| item.desc());
+    let n = check_item(&item)?;
+    cx.nontrivial(n >= 3);
+    Ok(())
+}
+
+
+/// Styled primitives of 100..=1024 px with strokes up to 128 px, solid and dotted (a quarter of the
+/// cases are dotted rectangles, whose dot positions are computed with `Real` arithmetic), judged on
+/// an extent-tracking native target (O(1) per fill); default and fixed_point builds.
+fn display_scale(d: &mut Dec, cx: &mut Cx) -> Res {
+    type C = Rgb565;
+    let dotted_rect = d.ratio(1, 4);
+    let kind = if dotted_rect { 0 } else { d.u(0, 7) };
+    let maxw = if d.ratio(1, 3) { 128 } else { 12 };
+    let mut st = crate::gen::style::<C>(d, maxw);
+    if dotted_rect || d.ratio(1, 8) {
+        st.stroke_style = embedded_graphics::primitives::StrokeStyle::Dotted;
+        if dotted_rect {
+            st.stroke_color = Some(<C as crate::gen::Col>::nth(2));
+            st.stroke_width = st.stroke_width.clamp(1, 12);
+        }
+    }
+    let item: Item<C> = Item::Styled(crate::gen::large_shape(d, kind, 100, 1024), st);
+    cx.describe(|| item.desc());
+    cx.class(if dotted_rect { "dotted_rectangle" } else { item.kind() });
+    let k = item.kind();
+    let mut t = ExtentT::<C>::new();
+    item.draw(&mut t).map_err(|e| Fail { sig: format!("{}:draw_error", k), detail: format!("{:?}", e) })?;
+    let bb = item.bounding_box();
+    if item.is_transparent() && t.pixels > 0 {
+        return fail(format!("{}:transparent_draws", k), format!("style is transparent but {} pixels were painted", t.pixels));
+    }
+    if let (Some(min), Some(max)) = (t.min, t.max) {
+        let inside = bb.contains(min) && bb.contains(max);
+        if !inside {
+            return fail(format!("{}:outside_bounding_box", k), format!("painted extent {:?}..={:?} is not inside bounding_box() = {:?}", min, max, bb));
+        }
+    }
+    cx.nontrivial(t.pixels >= 1 && !bb.is_zero_sized());
+    Ok(())
 }
